@@ -447,6 +447,11 @@ class Path:
                     self.events.append(Event("call", i, callee=callee, args=args, res=res))
             else:
                 eff = self.call_effects.get(callee) if callee else None
+                inl = inline_value(self.module, callee, args) if (eff is not None and callee) else None
+                if inl is not None:
+                    if i.name:
+                        self.env[i.name] = inl
+                    return None
                 if eff is None:
                     for a in args:
                         self.note_escape(a)
@@ -884,3 +889,36 @@ def enumerate_segments(fn, module, call_effects=None, max_paths=MAX_PATHS):
             if len(out) + len(stack) > max_paths:
                 raise AnalysisError("segment bound %d exceeded in %s" % (max_paths, fn.name))
     return out
+
+
+
+def subst_args(e, args):
+    if isinstance(e, tuple):
+        if len(e) == 2 and e[0] == "arg" and isinstance(e[1], int) and e[1] < len(args):
+            return args[e[1]]
+        return tuple(subst_args(x, args) if isinstance(x, tuple) else x for x in e)
+    return e
+
+
+_INLINE_CACHE = {}
+
+
+def inline_value(module, callee, args):
+    """Result expression of a call to a module-internal function that is a single straight-line path touching no
+    memory (a pure arithmetic helper), with the arguments substituted; None otherwise."""
+    if not module.has_fn(callee) or callee not in pure_functions(module):
+        return None
+    key = (id(module), callee)
+    if key not in _INLINE_CACHE:
+        fn = module.functions[callee]
+        val = None
+        if not any(i.op in ("load", "alloca", "getelementptr", "call") for i in fn.real_insts()):
+            try:
+                ps = enumerate_paths(fn, module)
+                if len(ps) == 1 and not ps[0].conds and ps[0].ret is not None:
+                    val = ps[0].ret
+            except AnalysisError:
+                val = None
+        _INLINE_CACHE[key] = val
+    v = _INLINE_CACHE[key]
+    return subst_args(v, args) if v is not None else None
